@@ -97,7 +97,9 @@ def encode41 (mcov bcov : List Nat) (marks : List Mark) (bases : List (List Anch
     let bcOff := mcOff + n1
     let maOff := bcOff + n2
     let baOff := maOff + 2 + 10 * markCount
-    if baOff > 0xFFFF then .panic "base array offset overflow"
+    -- REPAIRED (C08 #19): the reader rejects more than (65536-6-2)/2 anchor offsets
+    if baseCount * classCount > 32764 then .panic "too many anchor offsets"
+    else if baOff > 0xFFFF then .panic "base array offset overflow"
     else
       let flat := bases.flatMap id
       match baseOffsets flat (2 + 2 * baseCount * classCount) with
@@ -276,7 +278,9 @@ def encode22 (cov : List Nat) (c1 c2 : ClassPart) (rows : List Row) : Outcome By
   let n1 := rows.length
   let n2 := class2Count rows
   let covOff := 16 + n1 * n2 * (Gpos.vrLen f1 + Gpos.vrLen f2)
-  match Cov.encodeLen cov with
+  -- REPAIRED (C08 #18): the reader rejects class1Count * class2Count >= 65536
+  if n1 * n2 ≥ 65536 then .panic "too many class pairs"
+  else match Cov.encodeLen cov with
   | .ok n =>
     let cd1Off := covOff + n
     let cd2Off := cd1Off + c1.len
